@@ -266,8 +266,30 @@ var fixtureTime = time.Date(2001, 2, 3, 4, 5, 6, 789000000, time.UTC)
 
 const fileContent = "hello, read-only world\n"
 
-func makeFixture(dir string) {
+// removeTree removes a fixture whatever permission bits it carries.
+func removeTree(dir string) {
+	filepath.Walk(dir, func(p string, info fs.FileInfo, err error) error {
+		if err == nil && info.IsDir() {
+			os.Chmod(p, 0o755)
+		}
+		return nil
+	})
 	os.RemoveAll(dir)
+}
+
+// hostReadOnlyBits marks the fixture read-only in the HOST's permission bits (directories 0555, files 0444).  That is
+// a statement about who may write on the host, not about the mount: the process may be exempt (root), the bits may
+// change later, and a read-only mount must hold whatever they say.
+func hostReadOnlyBits(dir string) {
+	for _, p := range []string{"file.txt", "empty.txt", "sub/inner.txt"} {
+		must(os.Chmod(filepath.Join(dir, p), 0o444))
+	}
+	must(os.Chmod(filepath.Join(dir, "sub"), 0o555))
+	must(os.Chmod(dir, 0o555))
+}
+
+func makeFixture(dir string) {
+	removeTree(dir)
 	must(os.MkdirAll(filepath.Join(dir, "sub"), 0o755))
 	must(os.WriteFile(filepath.Join(dir, "file.txt"), []byte(fileContent), 0o644))
 	must(os.WriteFile(filepath.Join(dir, "empty.txt"), nil, 0o644))
@@ -621,6 +643,9 @@ func newWorld(name string, n int) *world {
 	} else {
 		w.dir = filepath.Join(*hx.Work, fmt.Sprintf("c17-%s-%d", name, n))
 		makeFixture(w.dir)
+		if name == "ro-dir-host-bits" {
+			hostReadOnlyBits(w.dir)
+		}
 	}
 	w.base = w.snap()
 	return w
@@ -629,7 +654,7 @@ func newWorld(name string, n int) *world {
 func (w *world) close() {
 	w.rt.Close(ctx)
 	if w.dir != "" {
-		os.RemoveAll(w.dir)
+		removeTree(w.dir)
 	}
 }
 
@@ -650,6 +675,9 @@ func (w *world) restore() {
 		}
 	} else {
 		makeFixture(w.dir)
+		if w.name == "ro-dir-host-bits" {
+			hostReadOnlyBits(w.dir)
+		}
 	}
 	w.base = w.snap()
 }
@@ -657,7 +685,7 @@ func (w *world) restore() {
 func (w *world) fsConfig() wazero.FSConfig {
 	c := wazero.NewFSConfig()
 	switch w.name {
-	case "ro-dir":
+	case "ro-dir", "ro-dir-host-bits":
 		return c.WithReadOnlyDirMount(w.dir, "/")
 	case "ro-dir-derived":
 		// the read-only configuration is the one in use; writable configurations are DERIVED from it (for a trusted
@@ -1105,7 +1133,7 @@ func (w *world) pathOpenGrid(paths []string) {
 						want := ask("c17 pathopen %d %d %d %d", uint16(d), uint16(o), uint16(f), uint32(r))
 						rep.Case(fmt.Sprintf("path_open/%s/%s/%d/%d/%d/%d", w.name, p, uint16(d), uint16(o), uint16(f), uint32(r)))
 						rep.Count(fmt.Sprintf("%s:path_open:model-%s:%s", w.name, strings.Fields(want)[0], errnoClass(errno)))
-						if w.name == "ro-dir" || w.name == "rec-dir" || w.name == "ro-dir-derived" {
+						if w.name == "ro-dir" || w.name == "rec-dir" || w.name == "ro-dir-derived" || w.name == "ro-dir-host-bits" {
 							w.comparePathOpen(op, errno, want)
 						}
 						if w.outer != nil {
@@ -1349,11 +1377,12 @@ func runWorld(name string, idx int, seed int64) {
 	defer w.close()
 	r := rand.New(rand.NewSource(seed*1000003 + int64(idx)))
 	paths := map[string][]string{
-		"ro-dir":         {"file.txt", "newfile", "sub", "link", "sub/inner.txt"},
-		"ro-dir-derived": {"file.txt", "newfile", "sub"},
-		"rec-dir":        {"file.txt", "newfile", "sub"},
-		"gofs-osdir":     {"file.txt", "newfile"},
-		"gofs-mapfs":     {"file.txt", "newfile"},
+		"ro-dir":           {"file.txt", "newfile", "sub", "link", "sub/inner.txt"},
+		"ro-dir-derived":   {"file.txt", "newfile", "sub"},
+		"ro-dir-host-bits": {"file.txt", "newfile", "sub", "sub/inner.txt"},
+		"rec-dir":          {"file.txt", "newfile", "sub"},
+		"gofs-osdir":       {"file.txt", "newfile"},
+		"gofs-mapfs":       {"file.txt", "newfile"},
 	}[name]
 	if hx.Thorough() {
 		paths = []string{"file.txt", "newfile", "sub", "link", "sub/inner.txt", "empty.txt", "sub/newfile"}
@@ -1444,7 +1473,7 @@ func main() {
 	}
 	sweepOflags()
 	sweepMethods()
-	worlds := []string{"ro-dir", "rec-dir", "gofs-osdir", "gofs-mapfs", "ro-dir-derived"}
+	worlds := []string{"ro-dir", "rec-dir", "gofs-osdir", "gofs-mapfs", "ro-dir-derived", "ro-dir-host-bits"}
 	var wg sync.WaitGroup
 	for i, name := range worlds {
 		copies := 1
